@@ -122,7 +122,24 @@ def harness_body(case, rec, cap, budget):
     rec.metric('elements', len(elems))
     with repo.quiet():
         md5 = live.mesh.md5()
-    for i, status, ratio in c03lib.judge(rows):
+    verdicts = c03lib.judge(rows)
+    redo = [i for i, status, _ in verdicts if status == 'inconclusive']
+    if redo:
+        # the two resolutions disagree on these elements: a second opinion with 40 / 45 time nodes per piece
+        try:
+            with repo.quiet():
+                rows2 = c03lib.element_report(residual, [elems[i] for i in redo], rule_pair=('C', 'D'), cut_elems=elems)
+        except Exception as ex:
+            if exc_site(ex) == 'harness':
+                raise
+            rows2 = None
+        if rows2 is not None and not isinstance(rows2, str):
+            second = {redo[k]: v for k, v in enumerate(c03lib.judge(rows2))}
+            for k, i in enumerate(redo):
+                rows[i] = rows2[k]
+            verdicts = [(i, second[i][1], second[i][2]) if i in second else (i, st_, ra) for i, st_, ra in verdicts]
+            rec.add('elements_decided_at_higher_resolution', len(redo))
+    for i, status, ratio in verdicts:
         rec.case()
         if status == 'inconclusive':
             rec.inconclusive += 1
@@ -220,6 +237,23 @@ def nested_family():
     return out
 
 
+def elongated_family():
+    """deterministic uniform meshes of three thin time slabs whose elements have aspect h_x^2/h_t of 20 ... 25 (the
+    upper part of the admissible range), every combination, quadrature path (and closed form on polygons)"""
+    TS = {'Circle': [0.0, 0.125, 0.25, 0.375], 'UnitSquare': [0.0, 0.04, 0.08, 0.12], 'LShape': [0.0, 0.04, 0.08, 0.12],
+          'PiSquare': [0.0, 0.4, 0.8, 1.2]}
+    out = []
+    for ci, (problem, dom) in enumerate(COMBOS):
+        for exact in (False, True):
+            if exact and dom == 'Circle':
+                continue
+            out.append({'kind': 'harness', 'combo': ci, 'exact': exact, 'ts': TS[dom], 'ops': []})
+        if dom == 'Circle' and problem in ('Dirichlet', 'MildSingular'):
+            # eight such slabs: in the later ones the residual is small compared with V Phi
+            out.append({'kind': 'harness', 'combo': ci, 'exact': False, 'ts': [k / 8 for k in range(9)], 'ops': []})
+    return out
+
+
 def body(case, rec, cap=14, budget=4e6):
     if case.get('kind') == 'example':
         example_body(case, rec, budget * 4)
@@ -236,6 +270,12 @@ def run(ctx):
     if ctx.quick:
         fam = [c for k, c in enumerate(fam) if (k + ctx.seed) % 4 == 0 or (c['exact'] and k % 2 == 0)]
     for case in ctx.mine(fam):
+        harness_body(case, ctx.rec, 40, budget * 4)
+    el = elongated_family()
+    if ctx.quick:
+        el = [c for k, c in enumerate(el) if (not c['exact'] or (k + ctx.seed) % 2 == 0) and
+              not (len(c['ts']) == 9 and COMBOS[c['combo']][0] != 'Dirichlet')]
+    for case in ctx.mine(el):
         harness_body(case, ctx.rec, 40, budget * 4)
     n = ctx.share(32 if ctx.quick else 96)
     for j in range(n):
